@@ -481,10 +481,20 @@ structure Rule where
 
 def substN (n : Nat) (s : String) : String := s.replace "{n}" (toString n)
 
+/-- meta values travel as JSON text: the meta object adds one level to their nesting, the frame
+    another; serde_json reads back at most `Xs.Wire.maxDepth` levels -/
+def sMetaDecodable (m : Option (List (String × String))) : Bool :=
+  match m with
+  | none => true
+  | some l => l.all (fun kv => match Json.parse kv.2 with
+      | .ok j => decide (jsonDepth j + 2 ≤ Xs.Wire.maxDepth)
+      | .error _ => true)
+
 def outReqOfJson (j : Json) : OutReq :=
-  { topic := (optStr j "topic").getD "", mdata := match j.getObjVal? "meta" with | .ok m => sMetaOfJson m | _ => none,
+  let m := match j.getObjVal? "meta" with | .ok m => sMetaOfJson m | _ => none
+  { topic := (optStr j "topic").getD "", mdata := m,
     ttl := (optStr j "ttl").bind ttlOfString, ctxReq := (optStr j "ctx").map hexToNat,
-    content := optStr j "content" }
+    content := optStr j "content", decodable := sMetaDecodable m }
 
 def ruleOfJson (j : Json) : Rule :=
   { topic := (optStr j "topic").getD "", appends := (arrOf j "appends").map outReqOfJson,
